@@ -11,7 +11,6 @@ import (
 )
 
 type Divp struct {
-	pipeline *bool
 }
 
 func (op Divp) Op_get_name() string {
@@ -174,7 +173,7 @@ func (op Divp) Simulate(vm *VM, instr string) error {
 	regDest := get_id(instr[:regBits])
 	regSrc := get_id(instr[regBits : regBits*2])
 
-	if *op.pipeline {
+	if vm.pipelinePhase(op.Op_get_name()) != 0 {
 		switch vm.Mach.Rsize {
 		case 8:
 			vm.Registers[regDest] = vm.Registers[regDest].(uint8) / vm.Registers[regSrc].(uint8)
@@ -188,9 +187,9 @@ func (op Divp) Simulate(vm *VM, instr string) error {
 			return errors.New("invalid register size")
 		}
 		vm.Pc = vm.Pc + 1
-		*op.pipeline = false
+		vm.setPipelinePhase(op.Op_get_name(), 0)
 	} else {
-		*op.pipeline = true
+		vm.setPipelinePhase(op.Op_get_name(), 1)
 	}
 	return nil
 }
